@@ -178,16 +178,25 @@ func c08Mutate(r *fw.Rand, doc []byte, other []byte, format string) ([]byte, str
 				for n := r.Range(1, 3); n > 0 && len(spans) > 0; n-- {
 					k := r.Intn(len(spans))
 					sp := spans[k]
+					if sp[0] < 0 || sp[1] < sp[0] || sp[1] > len(b) {
+						break
+					}
 					v := []byte(fw.Pick(r, c08Values))
 					b = append(b[:sp[0]:sp[0]], append(v, b[sp[1]:]...)...)
 					d := len(v) - (sp[1] - sp[0])
-					spans = append(spans[:k], spans[k+1:]...)
-					for q := range spans {
-						if spans[q][0] > sp[0] {
-							spans[q][0] += d
-							spans[q][1] += d
+					// the spans that lie wholly behind the replaced one move with the text; those that overlap it (a quote
+					// inside a quoted value) are gone
+					var rest [][2]int
+					for q, x := range spans {
+						switch {
+						case q == k:
+						case x[1] <= sp[0]:
+							rest = append(rest, x)
+						case x[0] >= sp[1]:
+							rest = append(rest, [2]int{x[0] + d, x[1] + d})
 						}
 					}
+					spans = rest
 				}
 			}
 			names = append(names, "attr-value")
